@@ -22,19 +22,25 @@ enum Mode { Mem, Disk, Cold }
 struct Real { r: Realisation, mode: Mode, part_bytes: u64 }
 
 impl Real {
-    fn tag(&self) -> String { format!("{:?} pb{} {}", self.mode, self.part_bytes, self.r.tag()) }
+    fn tag(&self) -> String { format!("{:?} pb{} pr{} {}", self.mode, self.part_bytes, self.r.pref, self.r.tag()) }
 }
 
 static OBS: Mutex<Vec<String>> = Mutex::new(Vec::new());
 
 /// Compaction inputs of table `t` recorded by the `compact:input` sync point since the last call, in the
 /// format of C07's classifier (`LM.C07M.classifyObs`): `<col>=<type>~<codec sig>/…;<col>=…`.
-fn take_obs() -> (usize, String) {
-    let labels: Vec<String> = std::mem::take(&mut *OBS.lock().unwrap());
+fn take_obs(tname: &str) -> (usize, String) {
+    let labels: Vec<String> = {
+        let mut all = OBS.lock().unwrap();
+        let key = format!("compact:input:{}:", tname);
+        let (mine, rest): (Vec<String>, Vec<String>) = std::mem::take(&mut *all).into_iter().partition(|l| l.starts_with(&key));
+        *all = rest;
+        mine
+    };
     let mut per_col: std::collections::BTreeMap<String, Vec<String>> = Default::default();
     for l in labels {
         let parts: Vec<&str> = l.splitn(7, ':').collect(); // compact:input:<table>:<column>:<id>:<type>:<sig>
-        if parts.len() < 7 || parts[2] != "t" { continue; }
+        if parts.len() < 7 { continue; }
         per_col.entry(parts[3].to_string()).or_default().push(format!("{}~{}", parts[5], parts[6].replace(' ', "")));
     }
     let k = per_col.values().map(|v| v.len()).max().unwrap_or(0);
@@ -59,10 +65,10 @@ fn options(real: &Real, dir: Option<&std::path::Path>) -> Options {
     o
 }
 
-fn build(t: &LTable, real: &Real) -> Db {
+fn build(t: &LTable, real: &Real, tname: &str) -> Db {
     let dir = if real.mode == Mode::Mem { None } else { Some(tempfile::tempdir().unwrap()) };
     let opts = options(real, dir.as_ref().map(|d| d.path()));
-    let _ = take_obs();
+    let _ = take_obs(tname);
     let mut fault = None;
     let mut obs: Vec<String> = vec![];
     let o2 = opts.clone();
@@ -84,7 +90,7 @@ fn build(t: &LTable, real: &Real) -> Db {
                 if r.omit_null_cols && i > 0 && slice.iter().all(|x| *x == Cell::Null) { continue; }
                 cols.push((t.names[i].clone(), ColRep::from_cells(slice, pref >> 33)));
             }
-            let batch = Batch { table: "t".into(), len: (e - s) as u64, cols };
+            let batch = Batch { table: tname.to_string(), len: (e - s) as u64, cols };
             let db2 = dbr.clone();
             match with_deadline(DEADLINE_S, move || ingest(&db2, &[batch])) {
                 Some(Ok(())) => {}
@@ -95,7 +101,7 @@ fn build(t: &LTable, real: &Real) -> Db {
         if r.flush[b] {
             let db2 = dbr.clone();
             let res = with_deadline(DEADLINE_S, move || db2.force_flush());
-            let (k, tok) = take_obs();
+            let (k, tok) = take_obs(tname);
             if k > 0 { obs.push(tok); }
             match res {
                 Some(Ok(())) => {}
@@ -113,15 +119,16 @@ fn build(t: &LTable, real: &Real) -> Db {
             Some(Err(_)) => fault = Some("panic:reopen".into()),
             None => fault = Some("hang:reopen".into()),
         }
-        let (k, tok) = take_obs();
+        let (k, tok) = take_obs(tname);
         if k > 0 { obs.push(tok); }
     }
     let mut split = vec![];
     if fault.is_none() {
         if let Some(dbr) = &db {
             let inner = dbr.verif_inner().clone();
+            let tn = tname.to_string();
             match with_deadline(DEADLINE_S, move || {
-                let mut ranges: Vec<(usize, usize)> = inner.snapshot("t", None).unwrap_or_default().iter().map(|p| (p.range().start, p.range().len())).collect();
+                let mut ranges: Vec<(usize, usize)> = inner.snapshot(&tn, None).unwrap_or_default().iter().map(|p| (p.range().start, p.range().len())).collect();
                 ranges.sort();
                 ranges.into_iter().map(|x| x.1).collect::<Vec<usize>>()
             }) {
@@ -146,14 +153,14 @@ enum Item { Expr(Ex), Key(usize), Agg(&'static str, usize) }
 struct Query { kind: Kind, items: Vec<Item>, pred: Option<Ex>, order: Vec<(usize, bool)>, limit: Option<u64>, offset: u64, feat: String }
 
 impl Query {
-    fn sql(&self, names: &[String]) -> String {
+    fn sql(&self, names: &[String], tname: &str) -> String {
         let items: Vec<String> = self.items.iter().map(|it| match it {
             Item::Expr(e) => e.sql(names),
             Item::Key(c) => names[*c].clone(),
             Item::Agg("count1", _) => "COUNT(1)".to_string(),
             Item::Agg(f, c) => format!("{}({})", f.to_uppercase(), names[*c]),
         }).collect();
-        let mut s = format!("SELECT {} FROM t", items.join(", "));
+        let mut s = format!("SELECT {} FROM {}", items.join(", "), tname);
         if let Some(p) = &self.pred { s.push_str(&format!(" WHERE {}", p.sql(names))); }
         if !self.order.is_empty() {
             s.push_str(" ORDER BY ");
@@ -368,29 +375,60 @@ fn make_absent(rng: &mut Rng, t: &mut LTable, cuts: &[usize]) -> usize {
     made
 }
 
-struct Suite<'a> { cases: &'a mut Cases }
+type CaseRow = (String, String, String, String);
 
-fn run_table(su: &mut Suite, t: &LTable, reals: &[Real], queries: &[Query], class_prefix: &str) {
-    let mut dbs: Vec<Db> = reals.iter().map(|r| build(t, r)).collect();
+/// `vharness::query_full` plus the message of an error value (for the case note only).
+fn query_msg(db: &Arc<LocustDB>, sql: &str) -> (QOut, String) {
+    let db2 = db.clone();
+    let sql2 = sql.to_string();
+    match with_deadline(DEADLINE_S, move || futures::executor::block_on(db2.run_query(&sql2, false, true, vec![]))) {
+        None => (QOut::Hang, String::new()),
+        Some(Err(p)) => (QOut::Panic(p), String::new()),
+        Some(Ok(Err(e))) => { let m = format!("{:?}", e); (QOut::Err(err_kind(&e).to_string()), m.chars().take(220).collect::<String>().replace(['\t', '\n'], " ")) }
+        Some(Ok(Ok(o))) => (convert_output(&o), String::new()),
+    }
+}
+
+struct Job { prefix: String, t: LTable, reals: Vec<Real>, queries: Vec<Query> }
+
+fn run_table(idx: usize, job: &Job) -> Vec<CaseRow> {
+    let (t, reals, queries, class_prefix) = (&job.t, &job.reals, &job.queries, &job.prefix);
+    let tname = format!("t{}", idx);
+    let mut dbs: Vec<Db> = reals.iter().map(|r| build(t, r, &tname)).collect();
     let ttok = t.tok();
+    let mut rows = vec![];
     for q in queries {
-        let sql = q.sql(&t.names);
-        let mut outs = vec![];
+        let sql = q.sql(&t.names, &tname);
+        let mut outs: Vec<String> = vec![];
         let mut parts = vec![];
         let mut details = vec![];
+        let failed = |tok: &str| !tok.starts_with("rows:") && tok != "err:overflow" && !tok.starts_with("build-");
         for (i, real) in reals.iter().enumerate() {
-            let out = match (&dbs[i].db, &dbs[i].fault) {
-                (Some(db), None) => query_full(db, &sql, true, DEADLINE_S),
-                (_, Some(f)) => if f.starts_with("hang") { QOut::Hang } else { QOut::Panic(format!("build {}", f)) },
-                _ => QOut::Panic("no db".into()),
+            // the query fails on the reference layout and on a second one: it is outside the fragment whatever the
+            // remaining layouts do (driver: SKIP all-layouts-fail); do not pay their deadlines
+            if i >= 2 && failed(&outs[0]) && failed(&outs[1]) {
+                parts.push(format!("{} {} {} skip", fmt_list(&dbs[i].split), real.r.batch_size, dbs[i].obs));
+                outs.push("skip".to_string());
+                continue;
+            }
+            let (out, emsg) = match (&dbs[i].db, &dbs[i].fault) {
+                (Some(db), None) => query_msg(db, &sql),
+                (_, Some(f)) => (if f.starts_with("hang") { QOut::Hang } else { QOut::Panic(format!("build {}", f)) }, String::new()),
+                _ => (QOut::Panic("no db".into()), String::new()),
             };
+            // the machine is shared: a deadline can be missed under load; a hang counts only if it repeats on a fresh database
+            let (out, emsg) = if matches!(out, QOut::Hang) && dbs[i].fault.is_none() {
+                dbs[i] = build(t, real, &tname);
+                match (&dbs[i].db, &dbs[i].fault) { (Some(db), None) => query_msg(db, &sql), _ => (out, emsg) }
+            } else { (out, emsg) };
+            if !emsg.is_empty() && !emsg.starts_with("Overflow") { details.push(format!("R{}: {}", i, emsg)); }
             let tok = if dbs[i].fault.is_some() { format!("build-{}", out.tok()) } else { canon(&q.kind, &out) };
             if !out.detail().is_empty() { details.push(format!("R{}: {}", i, out.detail().chars().take(160).collect::<String>())); }
-            parts.push(format!("{} {} {}", fmt_list(&dbs[i].split), dbs[i].obs, tok));
+            parts.push(format!("{} {} {} {}", fmt_list(&dbs[i].split), real.r.batch_size, dbs[i].obs, tok));
             // a worker that panicked is gone for good (C11): rebuild the realisation before the next query
             let poisoned = matches!(out, QOut::Panic(_) | QOut::Hang) || matches!(&out, QOut::Err(k) if k == "canceled");
             outs.push(tok);
-            if poisoned && dbs[i].fault.is_none() { dbs[i] = build(t, real); }
+            if poisoned && dbs[i].fault.is_none() { dbs[i] = build(t, real, &tname); }
         }
         let model_line = format!("lay {} {} {} {}", q.tok(), ttok, reals.len(), parts.join(" "));
         let kind = match q.kind { Kind::Sel => "sel", Kind::Ord => "ord", Kind::Grp => "grp", Kind::Agg => "agg" };
@@ -399,10 +437,47 @@ fn run_table(su: &mut Suite, t: &LTable, reals: &[Real], queries: &[Query], clas
         if reals.iter().any(|r| r.mode == Mode::Disk) { lay.push("disk"); }
         if reals.iter().any(|r| r.mode == Mode::Cold) { lay.push("cold"); }
         if dbs.iter().any(|d| d.obs != "-") { lay.push("compacted"); }
-        let class = format!("{}{}:{}|p{}{}", class_prefix, kind, q.feat, maxp.min(4), lay.iter().map(|s| format!("+{}", s)).collect::<String>());
-        let note = format!("{} | {} | {} | {}", sql, t.type_tag(), reals.iter().enumerate().map(|(i, r)| format!("R{}[{}]", i, r.tag())).collect::<Vec<_>>().join(" "), details.join(" ; "));
-        su.cases.push(&class, &model_line, &outs.join(" "), &note);
+        // coverage class: query branch + coarse features + layout features (the fine feature string stays in the note)
+        let w = if q.pred.is_some() { "w" } else { "-" };
+        let lim = match (q.limit, q.offset) { (None, _) => "", (_, 0) => "+lim", _ => "+lim+off" };
+        let coarse = match q.kind {
+            Kind::Sel => format!("{}{}{}", w, if q.items.iter().any(|it| matches!(it, Item::Expr(Ex::Arith(..)))) { "+arith" } else { "" }, lim),
+            Kind::Ord => format!("{}+k{}{}{}", w, q.order.len(), if q.order.iter().any(|o| o.1) { "+desc" } else { "" }, lim),
+            Kind::Grp | Kind::Agg => {
+                let nk = q.items.iter().filter(|it| matches!(it, Item::Key(_))).count();
+                let strkey = q.items.iter().any(|it| matches!(it, Item::Key(c) if matches!(t.types[*c], ColType::Str(_))));
+                let mut fns: Vec<&str> = q.items.iter().filter_map(|it| if let Item::Agg(f, _) = it { Some(*f) } else { None }).collect();
+                fns.sort(); fns.dedup();
+                format!("{}+g{}{}+{}", w, nk, if strkey { "s" } else { "" }, fns.join("/"))
+            }
+        };
+        let class = format!("{}{}:{}|{}{}", class_prefix, kind, coarse, if maxp >= 2 { "multi" } else { "single" }, lay.iter().filter(|s| **s != "disk").map(|s| format!("+{}", s)).collect::<String>());
+        let note = format!("{} | {} {} | {} | {}", sql.replace(&format!("FROM {}", tname), "FROM t"), t.type_tag(), q.feat, reals.iter().enumerate().map(|(i, r)| format!("R{}[{}]", i, r.tag())).collect::<Vec<_>>().join(" "), details.join(" ; "));
+        rows.push((class, model_line, outs.join(" "), note));
     }
+    rows
+}
+
+/// Run `f` over the jobs on `threads` worker threads (results in job order).  Most of the wall time of a
+/// realisation is waiting (fsync, deadlines of hanging flushes), not CPU.
+fn par_map<T: Send + Sync + 'static, R: Send + 'static, F: Fn(usize, &T) -> R + Send + Sync + 'static>(jobs: Vec<T>, threads: usize, f: F) -> Vec<R> {
+    let jobs = Arc::new(jobs);
+    let next = Arc::new(std::sync::atomic::AtomicUsize::new(0));
+    let f = Arc::new(f);
+    let results: Arc<Mutex<Vec<Option<R>>>> = Arc::new(Mutex::new((0..jobs.len()).map(|_| None).collect()));
+    let mut hs = vec![];
+    for _ in 0..threads {
+        let (jobs, next, f, results) = (jobs.clone(), next.clone(), f.clone(), results.clone());
+        hs.push(std::thread::spawn(move || loop {
+            let i = next.fetch_add(1, std::sync::atomic::Ordering::SeqCst);
+            if i >= jobs.len() { break; }
+            let r = f(i, &jobs[i]);
+            results.lock().unwrap()[i] = Some(r);
+        }));
+    }
+    for h in hs { let _ = h.join(); }
+    let mut guard = results.lock().unwrap();
+    guard.drain(..).map(|r| r.expect("job finished")).collect()
 }
 
 fn ints(v: &[i64]) -> Vec<Cell> { v.iter().map(|x| Cell::Int(*x)).collect() }
@@ -422,45 +497,124 @@ fn q_agg(kind: Kind, items: Vec<Item>, feat: &str) -> Query { Query { kind, item
 
 /// Witnesses of the layout findings (open and repaired): they head every run so that a KNOWN-FINDING line is
 /// printed deterministically and a repaired defect that comes back is reported again.
-fn corpus(su: &mut Suite) {
+fn corpus(jobs: &mut Vec<Job>) {
     let one = |n: usize| fixed_real(vec![0, n], vec![false], false, 999, Mode::Mem);
     // groupby-null-key-order (C04/C02, open): NULL group first in the partition result but emitted as i64::MAX
     let t = table(vec![("id", ColType::Id, ints(&[1, 2, 4])), ("c1", ColType::Int("small"), oints(&[None, Some(5), Some(5)]))]);
-    run_table(su, &t, &[one(3), fixed_real(vec![0, 2, 3], vec![true, false], false, 999, Mode::Mem), fixed_real(vec![0, 1, 2, 3], vec![true, true, true], false, 999, Mode::Mem)],
-        &[q_agg(Kind::Grp, vec![Item::Key(1), Item::Agg("count1", 0), Item::Agg("sum", 0)], "w-+i:cosu")], "corpus:groupby-null-key-order/");
+    jobs.push(Job { prefix: "corpus:groupby-null-key-order/".into(), t, reals: vec![one(3), fixed_real(vec![0, 2, 3], vec![true, false], false, 999, Mode::Mem), fixed_real(vec![0, 1, 2, 3], vec![true, true, true], false, 999, Mode::Mem)], queries: vec![q_agg(Kind::Grp, vec![Item::Key(1), Item::Agg("count1", 0), Item::Agg("sum", 0)], "w-+i:cosu")] });
     // combine-groupkey-absent (C02, repaired): string / float group column absent in one partition
     let t = table(vec![("id", ColType::Id, ints(&[1, 2, 3, 4, 5])), ("c1", ColType::Str("pool"), ostrs(&[Some("b"), Some("a"), Some("c"), None, None])),
         ("c2", ColType::Float("dyadic"), vec![Cell::f(1.5), Cell::f(2.5), Cell::f(0.5), Cell::Null, Cell::Null])]);
-    run_table(su, &t, &[one(5), fixed_real(vec![0, 3, 5], vec![true, false], true, 999, Mode::Mem), fixed_real(vec![0, 3, 5], vec![true, true], false, 999, Mode::Mem), fixed_real(vec![0, 1, 3, 5], vec![true, true, true], true, 999, Mode::Disk)],
-        &[q_agg(Kind::Grp, vec![Item::Key(1), Item::Agg("count1", 0)], "w-+s:co"), q_agg(Kind::Grp, vec![Item::Key(1), Item::Key(0), Item::Agg("count1", 0)], "w-+sI:co")], "corpus:combine-groupkey-absent/");
+    jobs.push(Job { prefix: "corpus:combine-groupkey-absent/".into(), t, reals: vec![one(5), fixed_real(vec![0, 3, 5], vec![true, false], true, 999, Mode::Mem), fixed_real(vec![0, 3, 5], vec![true, true], false, 999, Mode::Mem), fixed_real(vec![0, 1, 3, 5], vec![true, true, true], true, 999, Mode::Disk)], queries: vec![q_agg(Kind::Grp, vec![Item::Key(1), Item::Agg("count1", 0)], "w-+s:co"), q_agg(Kind::Grp, vec![Item::Key(1), Item::Key(0), Item::Agg("count1", 0)], "w-+sI:co")] });
     // agg-absent-column-float (C02, open): integer aggregate over a column absent in one partition comes back as a float
     let t = table(vec![("id", ColType::Id, ints(&[1, 2, 3, 4])), ("c1", ColType::Int("i64"), oints(&[None, None, None, Some(9007199254740993)]))]);
-    run_table(su, &t, &[one(4), fixed_real(vec![0, 3, 4], vec![true, false], true, 999, Mode::Mem), fixed_real(vec![0, 3, 4], vec![true, true], false, 999, Mode::Mem)],
-        &[q_agg(Kind::Agg, vec![Item::Agg("sum", 1), Item::Agg("max", 1)], "w-+suma"), q_agg(Kind::Grp, vec![Item::Key(0), Item::Agg("sum", 1)], "w-+I:su")], "corpus:agg-absent-column-float/");
+    jobs.push(Job { prefix: "corpus:agg-absent-column-float/".into(), t, reals: vec![one(4), fixed_real(vec![0, 3, 4], vec![true, false], true, 999, Mode::Mem), fixed_real(vec![0, 3, 4], vec![true, true], false, 999, Mode::Mem)], queries: vec![q_agg(Kind::Agg, vec![Item::Agg("sum", 1), Item::Agg("max", 1)], "w-+suma"), q_agg(Kind::Grp, vec![Item::Key(0), Item::Agg("sum", 1)], "w-+I:su")] });
+    // combine-groupkey-absent, sort branch: a string column absent in one partition as the middle key of a 3-key ORDER BY
+    let t = table(vec![("id", ColType::Id, ints(&[0, 1, 2])), ("c1", ColType::Int("small"), oints(&[None, None, None])), ("c2", ColType::Str("pool"), ostrs(&[None, Some("x"), None]))]);
+    jobs.push(Job { prefix: "corpus:combine-groupkey-absent/".into(), t, reals: vec![one(3), fixed_real(vec![0, 1, 2, 3], vec![true, true, true], true, 999, Mode::Mem), fixed_real(vec![0, 1, 3], vec![true, false], true, 999, Mode::Mem)],
+        queries: vec![Query { kind: Kind::Ord, items: vec![Item::Expr(Ex::Col(0)), Item::Expr(Ex::Col(2))], pred: None, order: vec![(1, true), (2, true), (1, true)], limit: Some(2), offset: 0, feat: "w-+kivsviv+lim".into() }] });
+    // arith-absent-column (C02, repaired): + - % over a column that is absent from one partition was a TypeError
+    let t = table(vec![("id", ColType::Id, ints(&[1, 2, 3])), ("c1", ColType::Int("small"), oints(&[Some(5), None, None]))]);
+    jobs.push(Job { prefix: "corpus:arith-absent-column/".into(), t, reals: vec![one(3), fixed_real(vec![0, 1, 3], vec![true, false], true, 999, Mode::Mem), fixed_real(vec![0, 2, 3], vec![true, true], true, 999, Mode::Cold)],
+        queries: ['+', '-', '%', '*', '/'].iter().map(|op| Query { kind: Kind::Sel, items: vec![Item::Expr(Ex::Col(0)), Item::Expr(Ex::Arith(*op, Box::new(Ex::Col(1)), Box::new(Ex::Lit(Cell::Int(2)))))], pred: None, order: vec![], limit: None, offset: 0, feat: format!("w-+arith{}", op) }).collect() });
+    // groupby-valrows-streamed (C02/C04, open): two grouping columns, one a packed string column, partition longer than batch_size
+    let strs: Vec<Cell> = (0..16).map(|i| Cell::Str(format!("k{}", i))).collect();
+    let t = table(vec![("id", ColType::Id, ints(&(0..16).collect::<Vec<i64>>())), ("c1", ColType::Str("highcard"), strs)]);
+    let bs = |b: usize, bounds: Vec<usize>, flush: Vec<bool>| { let mut r = fixed_real(bounds, flush, false, 999, Mode::Mem); r.r.batch_size = b; r };
+    jobs.push(Job { prefix: "corpus:groupby-valrows-streamed/".into(), t, reals: vec![one(16), bs(8, vec![0, 16], vec![false]), bs(64, vec![0, 16], vec![true]), bs(8, vec![0, 4, 16], vec![true, false])],
+        queries: vec![q_agg(Kind::Grp, vec![Item::Key(1), Item::Key(1), Item::Agg("count1", 0), Item::Agg("count", 1), Item::Agg("min", 0)], "w-+ss:cocomi")] });
+    // buffer-stream-nullable (C02, repaired): nullable ORDER BY key behind a WHERE filter, partition longer than batch_size
+    let t = table(vec![("id", ColType::Id, ints(&(0..24).collect::<Vec<i64>>())),
+        ("c1", ColType::Int("i64"), (0..24).map(|i| if i % 5 == 1 || i % 7 == 3 { Cell::Null } else { Cell::Int(1000 - 37 * i) }).collect()),
+        ("c2", ColType::Int("u16"), (0..24).map(|i| Cell::Int(if i % 3 == 0 { 5 } else { 100 + i })).collect())]);
+    jobs.push(Job { prefix: "corpus:buffer-stream-nullable/".into(), t, reals: vec![one(24), bs(8, vec![0, 24], vec![false]), bs(8, vec![0, 17, 24], vec![true, false]), bs(16, vec![0, 24], vec![true])],
+        queries: vec![Query { kind: Kind::Ord, items: vec![Item::Expr(Ex::Col(0)), Item::Expr(Ex::Col(1)), Item::Expr(Ex::Col(2))], pred: Some(Ex::Cmp(">", Box::new(Ex::Col(2)), Box::new(Ex::Lit(Cell::Int(83))))), order: vec![(1, true), (2, false)], limit: Some(12), offset: 0, feat: "w:i>+kivi^+lim".into() },
+            Query { kind: Kind::Sel, items: vec![Item::Expr(Ex::Col(0)), Item::Expr(Ex::Col(1))], pred: Some(Ex::Cmp(">", Box::new(Ex::Col(2)), Box::new(Ex::Lit(Cell::Int(83))))), order: vec![], limit: None, offset: 0, feat: "w:i>".into() }] });
+    // null-typed-partition (C02): sentinel NULL vs Val::Null do not tie in a multi-key ORDER BY; WHERE that is NULL for a whole partition
+    let t = table(vec![("id", ColType::Id, ints(&[0, 1, 2])), ("c3", ColType::Str("lowcard"), ostrs(&[None, Some("%"), None])), ("c4", ColType::Int("mono"), oints(&[Some(478), None, None]))]);
+    jobs.push(Job { prefix: "corpus:null-typed-partition/".into(), t, reals: vec![one(3), fixed_real(vec![0, 2, 3], vec![true, false], false, 999, Mode::Mem), fixed_real(vec![0, 2, 3], vec![true, true], false, 999, Mode::Mem), fixed_real(vec![0, 1, 3], vec![true, true], true, 999, Mode::Mem)],
+        queries: vec![Query { kind: Kind::Ord, items: vec![Item::Expr(Ex::Col(0)), Item::Expr(Ex::Col(2)), Item::Expr(Ex::Col(1))], pred: None, order: vec![(2, true), (1, false)], limit: Some(4), offset: 0, feat: "w-+kivs^+lim".into() },
+            Query { kind: Kind::Ord, items: vec![Item::Expr(Ex::Col(0))], pred: Some(Ex::Cmp("=", Box::new(Ex::Col(1)), Box::new(Ex::Lit(Cell::Str("ab".into()))))), order: vec![(2, false), (1, false), (2, false)], limit: None, offset: 0, feat: "w:s=+ki^s^i^".into() }] });
     // sum-sentinel (C04/C06/C02, open): a partial SUM equal to i64::MAX is taken for NULL when merged
     let t = table(vec![("id", ColType::Id, ints(&[1, 2, 3])), ("c1", ColType::Int("edges"), ints(&[i64::MAX - 2, 1, 1]))]);
-    run_table(su, &t, &[one(3), fixed_real(vec![0, 2, 3], vec![true, false], false, 999, Mode::Mem), fixed_real(vec![0, 1, 3], vec![true, false], false, 999, Mode::Mem)],
-        &[q_agg(Kind::Agg, vec![Item::Agg("sum", 1)], "w-+su")], "corpus:sum-sentinel/");
+    jobs.push(Job { prefix: "corpus:sum-sentinel/".into(), t, reals: vec![one(3), fixed_real(vec![0, 2, 3], vec![true, false], false, 999, Mode::Mem), fixed_real(vec![0, 1, 3], vec![true, false], false, 999, Mode::Mem)], queries: vec![q_agg(Kind::Agg, vec![Item::Agg("sum", 1)], "w-+su")] });
     // sum-overflow-order (C02, open): whether an intermediate sum overflows depends on where the partition boundaries are
     let t = table(vec![("id", ColType::Id, ints(&[1, 2, 3])), ("c1", ColType::Int("edges"), ints(&[i64::MAX - 1, 5, -10]))]);
-    run_table(su, &t, &[one(3), fixed_real(vec![0, 1, 3], vec![true, false], false, 999, Mode::Mem), fixed_real(vec![0, 2, 3], vec![true, false], false, 999, Mode::Mem)],
-        &[q_agg(Kind::Agg, vec![Item::Agg("sum", 1)], "w-+su")], "corpus:sum-overflow-order/");
+    jobs.push(Job { prefix: "corpus:sum-overflow-order/".into(), t, reals: vec![one(3), fixed_real(vec![0, 1, 3], vec![true, false], false, 999, Mode::Mem), fixed_real(vec![0, 2, 3], vec![true, false], false, 999, Mode::Mem)], queries: vec![q_agg(Kind::Agg, vec![Item::Agg("sum", 1)], "w-+su")] });
+}
+
+fn parse_cell_tok(c: &str) -> Cell {
+    if c == "_" { Cell::Null }
+    else if let Some(i) = c.strip_prefix('i') { Cell::Int(i.parse().unwrap()) }
+    else if let Some(f) = c.strip_prefix('f') { Cell::Float(u64::from_str_radix(f, 16).unwrap()) }
+    else if let Some(x) = c.strip_prefix('x') { Cell::Str(String::from_utf8(hex::decode(x).unwrap()).unwrap()) }
+    else { panic!("cell {}", c) }
+}
+
+/// `c02 --replay <file>`: the file is a replay written by `check` (JSON with "model_line" and "note") or two lines
+/// `<model line>` / `<note>`.  Rebuilds every realisation named in the note, runs the SQL of the note and prints
+/// the outputs (and the query plans of the last realisation).
+fn replay(path: &std::path::Path) {
+    let txt = std::fs::read_to_string(path).unwrap();
+    let (line, note) = if txt.trim_start().starts_with('{') {
+        let j: serde_json::Value = serde_json::from_str(&txt).unwrap();
+        let f = if j.get("first").is_some() { j["first"].clone() } else { j.clone() };
+        (f["model_line"].as_str().unwrap().to_string(), f["note"].as_str().unwrap().to_string())
+    } else { let mut it = txt.lines(); (it.next().unwrap().to_string(), it.next().unwrap().to_string()) };
+    let toks: Vec<&str> = line.split(' ').collect();
+    let ncols: usize = toks[7].parse().unwrap();
+    let cols: Vec<Vec<Cell>> = toks[8..8 + ncols].iter().map(|t| if *t == "[]" { vec![] } else { t.split(',').map(parse_cell_tok).collect() }).collect();
+    let n = cols[0].len();
+    let names: Vec<String> = (0..ncols).map(|i| if i == 0 { "id".to_string() } else { format!("c{}", i) }).collect();
+    let t = LTable { n, names, types: vec![ColType::Id; ncols], cols };
+    let sql = note.split(" | ").next().unwrap().to_string();
+    println!("SQL {}", sql);
+    for seg in note.split("] R").map(|s| s.to_string()) {
+        let Some(p) = seg.find('[') else { continue };
+        let body = &seg[p + 1..];
+        let f: Vec<&str> = body.split(' ').collect();
+        if f.len() < 3 || !(f[0] == "Mem" || f[0] == "Disk" || f[0] == "Cold") { continue; }
+        let mode = match f[0] { "Mem" => Mode::Mem, "Disk" => Mode::Disk, _ => Mode::Cold };
+        let grab = |key: &str| -> String { let i = body.find(key).unwrap() + key.len(); body[i..].chars().take_while(|c| *c != ' ' && *c != ']').collect() };
+        let list = |key: &str| -> Vec<usize> { let i = body.find(key).unwrap() + key.len(); let e = body[i..].find(']').unwrap(); body[i..i + e].split(',').filter(|x| !x.trim().is_empty()).map(|x| x.trim().parse().unwrap()).collect() };
+        let r = Realisation { bounds: list(" b["), flush: list(" f[").into_iter().map(|x| x == 1).collect(), omit_null_cols: grab(" om") == "1",
+            combine_factor: grab(" cf").parse().unwrap(), mem_lz4: grab(" lz") == "1", batch_size: grab(" bs").parse().unwrap(), threads: grab(" th").parse().unwrap(), pref: if body.contains(" pr") { grab(" pr").parse().unwrap() } else { 0 } };
+        let real = Real { r, mode, part_bytes: grab(" pb").parse().unwrap() };
+        let db = build(&t, &real, "t");
+        print!("{} split={:?} obs={} => ", real.tag(), db.split, db.obs);
+        match (&db.db, &db.fault) {
+            (Some(d), None) => {
+                let d2 = d.clone(); let s2 = sql.clone();
+                match with_deadline(DEADLINE_S, move || futures::executor::block_on(d2.run_query(&s2, true, true, vec![]))) {
+                    None => println!("hang"),
+                    Some(Err(p)) => println!("panic {}", p),
+                    Some(Ok(Err(e))) => println!("ERR {}", format!("{:?}", e).chars().take(300).collect::<String>()),
+                    Some(Ok(Ok(o))) => { println!("{}", convert_output(&o).tok()); if std::env::var("C02_PLANS").is_ok() { for (p, n) in o.query_plans { println!("{} x {}", n, p); } } }
+                }
+            }
+            (_, f) => println!("build fault {:?}", f),
+        }
+    }
 }
 
 fn main() {
     let args = parse_args();
+    if let Some(p) = &args.replay {
+        vharness::locustdb::verif::set_sync_callback(Some(Box::new(|label: &str| {
+            if label.starts_with("compact:input:") { OBS.lock().unwrap().push(label.to_string()); }
+        })));
+        replay(p);
+        return;
+    }
     quiet_panics();
     vharness::locustdb::verif::set_sync_callback(Some(Box::new(|label: &str| {
         if label.starts_with("compact:input:") { OBS.lock().unwrap().push(label.to_string()); }
     })));
     let mut rng = Rng::new(args.seed);
-    let mut cases = Cases::create(&args.out);
-    let mut su = Suite { cases: &mut cases };
-    let t0 = std::time::Instant::now();
-    corpus(&mut su);
-    let (tables, nreal, per_kind, budget_s) = if args.thorough() { (400, 6, 4, 1200) } else { (60, 4, 2, 75) };
-    for ti in 0..tables {
-        if t0.elapsed().as_secs() > budget_s { eprintln!("time budget reached after {} tables", ti); break; }
+    let mut jobs: Vec<Job> = vec![];
+    corpus(&mut jobs);
+    let (tables, nreal, per_kind, budget_s, threads) = if args.thorough() { (500, 6, 4, 1500u64, 12) } else { (90, 4, 2, 70u64, 12) };
+    for _ in 0..tables {
         let n = *rng.pick(&[1usize, 2, 3, 5, 8, 9, 16, 17, 33, 70]);
         let extra = 2 + rng.below(3) as usize;
         let mut t = gen_table(&mut rng, n, extra, true, true);
@@ -473,7 +627,7 @@ fn main() {
             let k = if kind == Kind::Ord { per_kind + 1 } else { per_kind };
             for _ in 0..k { queries.push(gen_query(&mut rng, &t, kind.clone())); }
         }
-        run_table(&mut su, &t, &reals, &queries, if absent > 0 { "abs/" } else { "" });
+        jobs.push(Job { prefix: if absent > 0 { "abs/".into() } else { String::new() }, t, reals, queries });
     }
     if args.thorough() {
         // bounded-exhaustive small shapes: every split of a 4-row table into flushed partitions x every cut point of an absent column
@@ -489,9 +643,22 @@ fn main() {
             }
             let mut queries = vec![];
             for _ in 0..6 { for kind in [Kind::Sel, Kind::Ord, Kind::Grp, Kind::Agg] { queries.push(gen_query(&mut rng, &t, kind)); } }
-            run_table(&mut su, &t, &reals, &queries, "exh/");
+            jobs.push(Job { prefix: "exh/".into(), t, reals, queries });
         }
     }
+    // the corpus always runs; generated tables are started until the time budget is used up
+    let ncorpus = jobs.iter().filter(|j| j.prefix.starts_with("corpus:")).count();
+    let t0 = std::time::Instant::now();
+    let skipped = Arc::new(std::sync::atomic::AtomicUsize::new(0));
+    let sk = skipped.clone();
+    let results = par_map(jobs, threads, move |i, job| {
+        if i >= ncorpus && t0.elapsed().as_secs() > budget_s { sk.fetch_add(1, std::sync::atomic::Ordering::SeqCst); return vec![]; }
+        run_table(i, job)
+    });
+    let mut cases = Cases::create(&args.out);
+    for rows in results { for (class, line, out, note) in rows { cases.push(&class, &line, &out, &note); } }
+    let sk = skipped.load(std::sync::atomic::Ordering::SeqCst);
+    if sk > 0 { eprintln!("time budget reached: {} generated tables not run", sk); }
     vharness::locustdb::verif::set_sync_callback(None);
     cases.finish();
 }
